@@ -1,6 +1,8 @@
 #!/bin/sh
-# usage: dbg.sh file line  -> compiles prefix up to line (inclusive) then Show.
+# usage: dbg.sh file.v LINE [TAILLINES] -> compiles the first LINE lines then `Show.` (prints the open goals)
 f=$1; n=$2
-head -n $n $f > /tmp/dbg_prefix.v
-echo "Show. Abort." >> /tmp/dbg_prefix.v
-cd /verif/coq && coqc -R . PV /tmp/dbg_prefix.v 2>&1 | tail -${3:-40}
+d=$(mktemp -d /tmp/dbg.XXXXXX)
+head -n $n $f > $d/dbg_prefix.v
+echo "Show. Abort." >> $d/dbg_prefix.v
+cd /verif/coq && timeout 600 coqc -R . PV $d/dbg_prefix.v 2>&1 | tail -${3:-40}
+rm -rf $d
